@@ -60,6 +60,32 @@ def main():
                                     if isinstance(last, dict):
                                         idf = last.get("identifier")
                                         rec["variants"][-1]["params_identifier"] = idf if isinstance(idf, str) else (idf or {}).get("main")
+                # histories before the submission (same content, one more initialisation task given to submit()): the task
+                # submitted at once / first used in-process (`instance()` validates and seals it) and written with
+                # `state_dict` (the identifier is part of what is written), then submitted
+                from experimaestro.core.serialization import state_dict
+                from experimaestro.core.context import SerializationContext
+                rec["histories"] = []
+                for hi, hname in enumerate(["submit(init)", "instance,submit(init)", "instance,state_dict,submit(init)"]):
+                    objs = cfgbuild.build_graph(mod, case["graph"])
+                    extra = mod.LW(v=3)
+                    ws = root / f"wsh{ci}_{hi}"
+                    ws.mkdir(parents=True, exist_ok=True)
+                    h = {"env": hname}
+                    with contextlib.redirect_stderr(io.StringIO()):
+                        with experiment(ws, "xph", port=-1, run_mode=RunMode.DRY_RUN) as xp:
+                            try:
+                                if hi >= 1:
+                                    objs[0].instance()
+                                if hi >= 2:
+                                    state_dict(SerializationContext(), objs[0])
+                            except Exception as e:
+                                h["skipped"] = f"{type(e).__name__}: {e}"[:200]
+                                rec["histories"].append(h)
+                                continue
+                            objs[0].submit(init_tasks=list(objs[0].__xpm__.init_tasks) + [extra])
+                            h.update(identifier=objs[0].__xpm__.identifier.all.hex(), relpath=str(objs[0].__xpm__.job.relpath))
+                    rec["histories"].append(h)
             except Exception as e:
                 rec["error"] = f"{type(e).__name__}: {e}"
                 rec["trace"] = traceback.format_exc()[-1200:]
